@@ -145,4 +145,9 @@ def word_edge_positions():
         "#bankdef a { bits=8, addr=0, outp=0xffff_ffff_ffff_fff8 }\n#bankdef b { bits=8, addr=0, size=0x10, outp=0x10 }\n#bank b\n#d8 0xcd\n#bank a\n#res 1\n#d8 0xab\n",
         "#bankdef a { bits=8, addr=0, outp=0xffff_ffff_ffff_fff0 }\n#res 1\nx:\n#res 1\ny:\n",
         "#bankdef a { bits=8, addr=0, outp=0xffff_ffff_ffff_fff0 }\n#res 2\nx:\n",
+        # a static size estimate above 2^64 bits, in a branch that is not taken (finding F82, repaired: the sum of the sizes
+        # wrapped in the released binary and panicked under overflow checks)
+        "#d false ? (1`18446744073709551615 @ 1`1) : 0x1\n",
+        "#ruledef\n{\n    t {x: u18446744073709551615}, {y: u8} => (true ? y : x @ y)\n}\nt 5, 6\n",
+        "#ruledef\n{\n    ld {x} => { assert(x > 5), 0x55 @ x`18446744073709551615 @ x`8 }\n    ld {x} => 0x11 @ x`8\n}\nld 1\n",
     ]
